@@ -33,8 +33,8 @@ RULE = ("case = one configuration (differential) or one (configuration, crash po
 ASSUMPTIONS = ["Linux /proc", "the harness puts /venv/bin on PATH so that the plug-in runner script is found", "population methods get an explicit seed option"]
 CASE_TIMEOUT = 240
 SHARD_TIMEOUT = {"quick": 900, "thorough": 7200}
-REQUIRED = {"quick": {"external_runs": 25, "trace_pairs_compared": 8, "kill_runs": 8, "optimizer_process_exit_runs": 5, "optimizer_error_without_message_runs": 3, "nested_pairs_compared": 2, "evaluator_exception_runs": 2, "process_table_checked": 25, "messages_counted": 100, "messages_beyond_one_pipe_buffer": 7, "configurations_compared_at_the_pipe": 14, "explicit_start_vector_pairs": 3, "pairs_with_path_options": 4, "external_runs_with_an_evaluation_beyond_the_polling_interval": 2, "__nontrivial__": 20},
-            "thorough": {"external_runs": 300, "trace_pairs_compared": 80, "kill_runs": 120, "optimizer_process_exit_runs": 80, "optimizer_error_without_message_runs": 50, "nested_pairs_compared": 12, "evaluator_exception_runs": 50, "process_table_checked": 300, "messages_counted": 2000, "messages_beyond_one_pipe_buffer": 70, "configurations_compared_at_the_pipe": 140, "pairs_with_path_options": 40, "external_runs_with_an_evaluation_beyond_the_polling_interval": 25, "__nontrivial__": 250}}
+REQUIRED = {"quick": {"external_runs": 25, "trace_pairs_compared": 8, "kill_runs": 8, "optimizer_process_exit_runs": 5, "optimizer_error_without_message_runs": 3, "nested_pairs_compared": 2, "evaluator_exception_runs": 2, "process_table_checked": 25, "messages_counted": 100, "messages_beyond_one_pipe_buffer": 7, "configurations_compared_at_the_pipe": 14, "explicit_start_vector_pairs": 3, "pairs_with_path_options": 4, "pairs_with_path_options_beyond_ascii": 2, "external_runs_with_an_evaluation_beyond_the_polling_interval": 2, "__nontrivial__": 20},
+            "thorough": {"external_runs": 300, "trace_pairs_compared": 80, "kill_runs": 120, "optimizer_process_exit_runs": 80, "optimizer_error_without_message_runs": 50, "nested_pairs_compared": 12, "evaluator_exception_runs": 50, "process_table_checked": 300, "messages_counted": 2000, "messages_beyond_one_pipe_buffer": 70, "configurations_compared_at_the_pipe": 140, "pairs_with_path_options": 40, "pairs_with_path_options_beyond_ascii": 20, "external_runs_with_an_evaluation_beyond_the_polling_interval": 25, "__nontrivial__": 250}}
 N = {"quick": {"diff": 27, "kill": 3, "exc": 2, "exit": 2, "nested": 3}, "thorough": {"diff": 270, "kill": 30, "exc": 20, "exit": 20, "nested": 20}}
 MAX_ROUNDS_AFTER_DEATH = 6
 
@@ -594,9 +594,14 @@ def run_case(case, obs):
             import tempfile  # noqa: PLC0415
 
             outdir = tempfile.mkdtemp(prefix="verif_c20_out_", dir=("/dev/shm" if os.path.isdir("/dev/shm") else None))
-            spec = dict(spec, optimizer=dict(spec["optimizer"], output_dir=outdir, **({"stdout": "optimizer.out"} if case["i"] % 8 == 1 else {"stderr": os.path.join(outdir, "optimizer.err")})))
+            # ... half of them with characters beyond ASCII in the names (a user's directory, a file named in their language)
+            plain = case["i"] % 16 in (1, 5)
+            n_out, n_err = ("optimizer.out", "optimizer.err") if plain else ("sortie_optimiseur_\u00e9t\u00e9_\u51fa\u529b.out", "fehler_\u00fc\u00df.err")
+            spec = dict(spec, optimizer=dict(spec["optimizer"], output_dir=outdir, **({"stdout": n_out} if case["i"] % 8 == 1 else {"stderr": os.path.join(outdir, n_err)})))
             case["spec"] = spec
             obs.count("pairs_with_path_options")
+            if not plain:
+                obs.count("pairs_with_path_options_beyond_ascii")
         try:
             return _diff_case(case, obs, spec, rng, tag)
         finally:
